@@ -28,7 +28,15 @@ def run(run, scr, tier, seed, only=None):
         hs = [h for h in hs if any(o in h.name for o in only)]
     run.functions += ['src/lib.rs functionality!{try_sign_with_rng, try_hash_sign_with_rng, verify, hash_verify, _internal_sign, _internal_verify} for ml_dsa_44/65/87', 'src/hashing.rs::hash_message']
     run.assumptions += wrapc.TRUSTED + ['the length byte absorbed into mu equals the context length for every n <= 255 (transcript harness of C06)', 'context lengths above 1024 are outside the bound']
-    results = vlib.run_kani(scr, hs, jobs=6)
+    build_failed = None
+    try:
+        results = vlib.run_kani(scr, hs, jobs=6)
+    except vlib.BuildError as ex:
+        # a changed crate-internal signature breaks the stubs of the harness module: the solver part is unavailable, the native sweep of the
+        # whole bound runs instead and a reproduced failure is still reported
+        results = []; build_failed = str(ex)[-400:].replace('\n', ' ')
+        run.add_query({'name': 'Kani harness module builds against this tree', 'engine': 'rustc (Kani build)', 'verdict': 'unknown', 'detail': build_failed}, core=False)
+        run.inconclusive.append('Kani harness module does not build on this tree (changed internal signature?): ' + build_failed[-200:])
     bad_lengths = set()
     for r in results:
         if r.status == 'failed':
@@ -39,15 +47,16 @@ def run(run, scr, tier, seed, only=None):
             r.detail = 'C07 assertions failed: ' + '; '.join(d for _, d, _ in own)[:300]
     run.add_kani_results(results)
     failed = [r for r in results if r.status == 'failed']
-    if failed:
-        # the solver says a violating length exists within 0..=1024: find it natively by sweeping the whole bound
+    if failed or build_failed:
+        # the solver says a violating length exists within 0..=1024 (or could not be asked): find it natively by sweeping the whole bound
         lengths = list(range(0, 1025))
         res, msgs = native(scr, lengths)
         path = vlib.save_replay('C07', 'ctx', {'property': 'C07', 'kind': 'ctx', 'lengths': 'all 0..=1024 (release), grid (dev)', 'native': res, 'first_failures': msgs[:6], 'failed': [r.detail for r in failed]})
         if 'fail' in res.values():
             run.violation('ctx-guard', f'context-length guard: {msgs[:4]} (native {res})', path)
         else:
-            run.inconclusive.append(f'C07 harness failures did not reproduce natively: {[r.detail for r in failed][:2]} native={res} {msgs[:2]}')
+            if failed:
+                run.inconclusive.append(f'C07 harness failures did not reproduce natively: {[r.detail for r in failed][:2]} native={res} {msgs[:2]}')
     run.samples = [{'harness': r.h.name, 'verdict': r.status, 'covers': r.covers[:5]} for r in results[:6]]
     return run.finish(
         rule='one harness per (parameter set, entry point) decides the guard for every context length 0..=1024 and every RNG/verifier outcome; non-trivial = verified with the covers n==255 accepted, n==256 and n==512 rejected satisfied',
